@@ -1144,11 +1144,16 @@ buildCommand(BuildContext& context, ninja::Command* command) {
       }
 
       // Ignore phony commands.
-      //
-      // FIXME: Is it right to bring this up-to-date when one of the inputs
-      // indicated a failure? It probably doesn't matter.
       auto commandHash = CommandSignature(command->getCommandString());
       if (command->getRule() == context.manifest->getPhonyRule()) {
+        // If one of the inputs is missing, failed or was skipped, the phony
+        // command is not available either: propagate that, so the commands
+        // which depend on the alias are not run.
+        if (shouldSkip && !context.simulate) {
+          return ti.complete(BuildValue::makeSkippedCommand().toValue(),
+                             /*ForceChange=*/true);
+        }
+
         // Get the result.
         BuildValue result = computeCommandResult(commandHash);
 
